@@ -197,10 +197,10 @@ class DataTypeParameter(StringParameter):
         self.valid_types = valid_types
 
     def clean(self, value, program=None, lineno=None):
-        if value in self.valid_types.values():
-            return value
-
         try:
+            if value in self.valid_types.values():
+                return value
+
             return self.valid_types[value]
         except (KeyError, TypeError):
             raise ParameterNotValid(
